@@ -132,7 +132,9 @@ Sift2(k1, k2) == LET a == N(k1) b == N(k2) IN
 
 \* copy / sift() / pickle round trip / items: all observe the items in order, unchanged
 Copy == UNCHANGED <<keys, val>> /\ res' = ItemsRes(Items)
-Pickle == UNCHANGED <<keys, val>> /\ res' = ItemsRes(Items)
+\* pickle round trip with protocol p, copy.copy, copy.deepcopy: an equal, independent dictionary of the same class
+Pickle(p) == UNCHANGED <<keys, val>> /\ res' = ItemsRes(Items)
+CopyModule(deep) == UNCHANGED <<keys, val>> /\ res' = ItemsRes(Items)
 Clear == keys' = <<>> /\ val' = <<>> /\ res' = None
 
 Next ==
@@ -142,7 +144,9 @@ Next ==
     \/ \E k \in Keys : Del(k) \/ Get(k) \/ Contains(k) \/ Pop(k)
     \/ \E k1, k2 \in Keys : Sift2(k1, k2)
     \/ \E k1, k2 \in Keys, v1, v2 \in Vals : Update2(k1, v1, k2, v2)
-    \/ PopItem \/ Copy \/ Pickle \/ Clear
+    \/ PopItem \/ Copy \/ Clear
+    \/ \E p \in {0, 1, 2, 5} : Pickle(p)
+    \/ \E b \in BOOLEAN : CopyModule(b)
 
 Spec == Init /\ [][Next]_vars
 
